@@ -67,7 +67,7 @@ class Lang:
     def to_json(self):
         return {"hierarchy": self.h.to_json(), "listed": self.listed,
                 "top": self.top, "bot": self.bot, "noperators": self.noperators,
-                "declared_late": getattr(self, "late", None)}
+                "declared_late": getattr(self, "late", None), "shared_subterm_objects": getattr(self, "share", False)}
 
     @staticmethod
     def from_json(d) -> "Lang":
@@ -77,6 +77,7 @@ class Lang:
             d["top"], d["bot"], d.get("noperators", 1))
         if d.get("declared_late") is not None:
             L.late = d["declared_late"]
+        L.share = bool(d.get("shared_subterm_objects"))
         return L
 
     def build(self):
@@ -92,7 +93,9 @@ class Lang:
         for k in range(self.noperators):
             self.operators[f"f{k}"] = Operator(type=base0() ** base0())
         scope.update(self.operators)
-        canon = [h.inst(t) for t in self.listed]
+        # equal subterms of a listed type may be one and the same object (a = A(); F(a, a))
+        memo = {} if getattr(self, "share", False) else None
+        canon = [h.inst(t, memo) for t in self.listed]
         if self.top:
             canon.append(T.Top)
         if self.bot:
@@ -158,6 +161,13 @@ def gen_lang(rng: random.Random, flags=None) -> Lang:
     if flags is None:
         flags = (rng.random() < 0.5, rng.random() < 0.5)
     L = Lang(h, listed, flags[0], flags[1], rng.randint(0, 2))
+    L.share = rng.random() < 0.4
+    if L.share and rng.random() < 0.5:
+        # make sure there is something to share: a binary operator over one parameter twice
+        two = [o for o in comps if h.arity(o) == 2]
+        if two:
+            a = ty(rng.choice([0, 0, 1]))
+            listed.append((rng.choice(two), [a, a]))
     if rng.random() < 0.3:
         # one leaf base type is declared and added only after the taxonomy has been consulted
         leaves = [i for i in bases if i != 5 and i not in parents.values() and i in parents
